@@ -26,8 +26,8 @@ RULE = ("random and systematic compositions / tracks / bars / containers / notes
 
 def shards(tier, seed):
     out = []
-    n = 1500 if tier == "quick" else 60000
-    parts = 6 if tier == "quick" else 16
+    n = 4000 if tier == "quick" else 60000
+    parts = 8 if tier == "quick" else 16
     for i in range(parts):
         out.append({"name": "files-%d" % i, "kind": "files", "n": n // parts, "weight": 8})
     out.append({"name": "systematic", "kind": "systematic", "weight": 3})
